@@ -211,6 +211,19 @@ Section MPI.
     | None => None
     end.
 
+  (* consecutive map calls on ONE pool: batch = (function number, tasks, event trace);
+     self.function after a map is that map's function (153), the workers carry over *)
+  Fixpoint run_session (W : nat) (lbflag : bool) (mf : nat) (ws : list worker)
+           (bs : list (nat * list T * list ev)) : option (list (list (option R))) :=
+    match bs with
+    | [] => Some []
+    | (gb, tb, eb) :: r =>
+        match accepts_run (Cfg W gb tb lbflag) mf ws eb with
+        | Some (res, ws') => option_map (cons res) (run_session W lbflag gb ws' r)
+        | None => None
+        end
+    end.
+
   (* all events that could possibly be enabled in a state (used to search for an enabled one) *)
   Definition candidates (cfg : config) (st : state) : list ev :=
     let m := st_m st in
@@ -267,5 +280,6 @@ Arguments init {T R} _ _ _.
 Arguments fresh_workers {T R} _.
 Arguments result {T R} _ _.
 Arguments accepts_run {T R} _ _ _ _ _.
+Arguments run_session {T R} _ _ _ _ _ _.
 Arguments candidates {T R} _ _.
 Arguments enabled {T R} _ _ _.
